@@ -230,3 +230,15 @@ func init() {
 		},
 	})
 }
+
+func init() {
+	register(&Property{
+		ID: "MISC", Title: "scratch: misc rules",
+		Rules: []Rule{
+			{Name: "CHAN/close-send", Min: 1, Run: ruleChan},
+			{Name: "FIFO/queues", Min: 1, Run: ruleFIFO("server.Subscription.eventQueue", "server.wsConn.queue", "rescache.EventSubscription.queue", "rescache.EventSubscription.locks", "rescache.Throttle.queue")},
+			{Name: "REC/census", Min: 1, Run: ruleRec},
+			{Name: "LOCK/order", Min: 1, Run: ruleLockOrder},
+		},
+	})
+}
